@@ -562,6 +562,16 @@ def h_nth_default_identity(ctx):
             jump[k, i], path[k, i] = ctx.real(f"j{k}_{i}"), ctx.real(f"p{k}_{i}")
             ctx.assume(AND(jump[k, i] > 0, path[k, i] > 0))
             ljump[k, i] = shims.sym_log(jump[k, i])
+    # the same statement on one concrete path first (refuted at once when it is wrong; the symbolic version below needs exp / log reasoning)
+    V.set_context(None)
+    try:
+        bad_concrete, detail = replay_nth_default_identity({})
+    finally:
+        V.set_context(ctx)
+    ctx.prove("C17.default_time_of_a_name_follows_its_jump_path_in_both_representations", not bad_concrete, info={"concrete_path": True, "detail": detail[:160]},
+              replay=(replay_nth_default_identity, lambda m: {}))
+    if bad_concrete:
+        return  # already refuted: the symbolic version would only add solver time
     for k in (1, 2):
         got = UND.DefaultTimeNthUnderlying(default_levels=a, underlying_index=k).value(times, path, jump)
         want = UND.DefaultTimeNthUnderlying(default_levels=a, underlying_index=k)._value_log(times, None, ljump)
